@@ -2,6 +2,7 @@ package main
 
 import (
 	"fmt"
+	"go/constant"
 	"go/token"
 	"sort"
 	"strings"
@@ -20,7 +21,7 @@ func init() {
 			"getValuesFromRow, getIdentifiesFromRow) an absent column moves neither the NULL index nor the offset, a NULL column moves the index by one only, a value moves the index by one and the " +
 			"offset by exactly the length returned for Types[c], Metadata[c] at the current offset, the presence bitmap is indexed by the column ordinal and the NULL bitmap by the running index; " +
 			"(R4) bytes, presence bitmap and NULL bitmap of a loop belong to one image family and the NULL bitmap's width is the BitCount of that family's presence bitmap; (R5) the bitmap constructors " +
-			"size by (count+7)/8 and Bit/Set address byte index/8 with mask 1<<(index&7). " +
+			"size by (count+7)/8 and Bit/Set address byte index/8 with mask 1<<(index&7), BitCount counts Bit(i) for i<count; (R6) per rows-event type (v1/v2 x write/update/delete) Rows reads exactly the images that type carries and finds the column count after the table id, flags and - v2 only - the extra-data block skipped by its own announced length. " +
 			"Not decided: that row count and image bytes equal what a master encoded for arbitrary shapes.",
 		Rule:        "instances = (type, metadata) specialisations (distinct = distinct specialisations with a non-trivial, i.e. success-returning, decoder path), loop path classes, bitmap sibling terms",
 		Trusted:     append([]string{"H-sccp (sccp.go): modular integer arithmetic per Go type; package tables proven never written after init are constants", "H-term (term.go): canonical affine terms with LE/BE recognition"}, commonTrusted...),
@@ -59,6 +60,12 @@ func init() {
 			Old: "row.NullColumns, pos = newBitmap(data, pos, numDataColumns)", New: "row.NullColumns, pos = newBitmap(data, pos, numIdentifyColumns)",
 			Old2: "row.NullIdentifyColumns, pos = newBitmap(data, pos, numIdentifyColumns)", New2: "row.NullIdentifyColumns, pos = newBitmap(data, pos, numDataColumns)",
 			Expect: "C09-R4 null-width@Rows"},
+		Variant{ID: "c09-r6-v1-delete-extra", Prop: "C09", File: "replication/binlog_event_rbr.go",
+			Old: "\tif typ == eWriteRowsEventV2 || typ == eUpdateRowsEventV2 || typ == eDeleteRowsEventV2 {\n\t\t// This extraDataLength", New: "\tif typ == eWriteRowsEventV2 || typ == eUpdateRowsEventV2 || typ == eDeleteRowsEventV2 || typ == eDeleteRowsEventV1 {\n\t\t// This extraDataLength",
+			Expect: "C09-R6 rows-header@Rows[type=25"},
+		Variant{ID: "c09-r6-extra-skip-twice", Prop: "C09", File: "replication/binlog_event_rbr.go",
+			Old: "\t\tpos += int(extraDataLength)\n", New: "\t\tpos += 2 + int(extraDataLength)\n",
+			Expect: "C09-R6 rows-header@Rows[type=30"},
 		Variant{ID: "c09-r5-bitcount-popcount", Prop: "C09", File: "replication/binlog_event.go",
 			Old: "\tsum := 0\n\tfor i := 0; i < b.count; i++ {\n\t\tif b.Bit(i) {\n\t\t\tsum++\n\t\t}\n\t}\n\treturn sum", New: "\tsum := 0\n\tfor _, x := range b.data {\n\t\tfor ; x != 0; x &= x - 1 {\n\t\t\tsum++\n\t\t}\n\t}\n\treturn sum",
 			Expect: "C09-R5 count@BitCount"},
@@ -77,6 +84,91 @@ func runC09(a *A) {
 	c09R2(a, cd)
 	c09R3R4(a, cd)
 	c09R5(a)
+	c09R6(a)
+}
+
+// R6: the rows-event header per event type (v1 23/24/25, v2 30/31/32) and post-header size: which images exist, whether the
+// v2 extra-data block is skipped (by exactly its announced length, which counts its own two bytes), where the column count is read.
+func c09R6(a *A) {
+	const rule = "C09-R6"
+	w := a.W
+	rows := w.method(w.Repl, "binlogEvent", "Rows")
+	if !a.need(rows != nil, rule, "binlogEvent.Rows") {
+		return
+	}
+	var typ, hs ssa.Value
+	instrs(rows, func(in ssa.Instruction) {
+		if c, ok := in.(*ssa.Call); ok && c.Common().StaticCallee() != nil {
+			switch c.Common().StaticCallee().Name() {
+			case "Type":
+				if typ == nil {
+					typ = c
+				}
+			case "HeaderSize":
+				hs = c
+			}
+		}
+	})
+	if !a.need(typ != nil && hs != nil, rule, "Type() and HeaderSize() calls in Rows") {
+		return
+	}
+	type want struct {
+		ident, data, v2 bool
+		name            string
+	}
+	wants := map[int64]want{23: {false, true, false, "WRITE_ROWSv1"}, 24: {true, true, false, "UPDATE_ROWSv1"}, 25: {true, false, false, "DELETE_ROWSv1"},
+		30: {false, true, true, "WRITE_ROWSv2"}, 31: {true, true, true, "UPDATE_ROWSv2"}, 32: {true, false, true, "DELETE_ROWSv2"}}
+	for _, t := range []int64{23, 24, 25, 30, 31, 32} {
+		wt := wants[t]
+		res := Specialize(rows, map[ssa.Value]constant.Value{typ: constant.MakeInt64(t), hs: constant.MakeInt64(8)}, nil)
+		a.Evals++
+		x := newWF(rows)
+		x.res = res
+		x.bodyBases()
+		// presence bitmaps constructed and the column-count read position
+		gotI, gotD := false, false
+		countAt := "?"
+		nLen := 0
+		instrs(rows, func(in ssa.Instruction) {
+			c, ok := in.(*ssa.Call)
+			if !ok || !res.Exec[c.Block()] || c.Common().StaticCallee() == nil {
+				return
+			}
+			switch c.Common().StaticCallee().Name() {
+			case "readLenEncInt":
+				nLen++
+				if nLen == 1 {
+					countAt = x.affine(c.Common().Args[1]).String()
+				}
+			case "newBitmap":
+				for _, ref := range *c.Referrers() {
+					if ex, ok := ref.(*ssa.Extract); ok && ex.Index == 0 {
+						for _, rr := range *ex.Referrers() {
+							if st, ok := rr.(*ssa.Store); ok {
+								if fa, ok := st.Addr.(*ssa.FieldAddr); ok {
+									switch fieldName(fa) {
+									case "IdentifyColumns":
+										gotI = true
+									case "DataColumns":
+										gotD = true
+									}
+								}
+							}
+						}
+					}
+				}
+			}
+		})
+		wantCount := "8"
+		if wt.v2 {
+			wantCount = "le[8,10)+8"
+		}
+		key := fmt.Sprintf("rows-header@Rows[type=%d,%s]", t, wt.name)
+		ok := gotI == wt.ident && gotD == wt.data && countAt == wantCount
+		a.check(ok, rule, key, w.pos(rows.Pos()), fmt.Sprintf("identify image=%v, data image=%v, column count read at %s", wt.ident, wt.data, wantCount),
+			fmt.Sprintf("for a %s event Rows() reads identify image=%v, data image=%v and the column count at body offset %s; the layout is identify=%v, data=%v, column count at %s (after the 6-byte table id, 2 flag bytes%s)",
+				wt.name, gotI, gotD, countAt, wt.ident, wt.data, wantCount, map[bool]string{true: " and the extra-data block whose 2-byte length includes itself", false: ""}[wt.v2]))
+	}
 }
 
 func c09R1(a *A, cd *codec) {
